@@ -362,6 +362,8 @@ def check_step(world, pre, post, r, res):
         # alpha is not trustworthy: invariant violations stand, refinement is not evaluated
         return out
     tol = _tol(pre)
+    if do in ("sub.contract", "env.contract"):
+        tol = TOL_CONTRACT  # an explicit contraction may drop eigenvalues below the library's 1e-6 purity cut
     if do == "fault":
         _check_fault(world, pre, post, r, res, cell, out, tol)
         return out
